@@ -29,6 +29,9 @@ type Result struct {
 	SimTime    time.Duration
 	Infra      string // non-empty: infrastructure trouble (exit 2), never a violation
 	Summary    string // one-line description of the case (for samples)
+	// NoMinimise: the violation cannot be re-observed in this process (race
+	// reports are deduplicated per process); the replay file keeps the full tape.
+	NoMinimise bool
 }
 
 // FromEnv fills the generic parts of a result from the run environment.
@@ -228,7 +231,13 @@ func RunWorker(t *testing.T, c WorkerCfg) {
 				continue
 			}
 			distinctViol[v.Key()] = true
-			rep := Minimise(t, c.Prop, sc, tape.Snapshot(), v, c.Findings)
+			var rep *Replay
+			if res.NoMinimise {
+				rep = &Replay{Scenario: sc, Tape: tape.Snapshot(), Class: v.Class, Sig: v.Sig, Msg: v.Msg, History: res.History,
+					Minimise: MinReport{OriginalTapeLen: len(tape.Rec), FinalTapeLen: len(tape.Rec)}}
+			} else {
+				rep = Minimise(t, c.Prop, sc, tape.Snapshot(), v, c.Findings)
+			}
 			rep.Property, rep.Engine, rep.Tier, rep.Seed, rep.Run = c.Prop.ID(), c.Prop.Engine(), c.Tier, c.Seed, run
 			name := fmt.Sprintf("%s-%s-seed%d-run%d.json", c.Prop.ID(), sanitize(v.Class), c.Seed, run)
 			path := filepath.Join(c.ReplayDir, name)
